@@ -2,7 +2,7 @@
    Statements only; proofs are `exact <lemma>` (Lemmas/BlocksL.v, Lemmas/Sound.v).
    Model: Model/Op.v `Block i b td l` (kind BRow/BDiag/BCol, tree shape td of the container, blocks l
    in pytree-leaf order), Model/Algebra.v (mk_block, structs, transpose, the block rules),
-   Model/Denote.v (denote), Model/BlockMat.v (containers, tree maps, matrices, binv). *)
+   Model/Denote.v (denote), Model/BlockMat.v (containers, tree maps, matrices, binv, steps). *)
 From Coq Require Import List Ring ZArith String.
 From Furax Require Import Base.Pytree Model.Op Model.Algebra Model.Denote Model.Wf Model.BlockMat
   Lemmas.DenoteL Lemmas.Sound Lemmas.BlocksL.
@@ -309,9 +309,17 @@ Example c10_wrapper_blocks_example :
   st [SI] (Block 5%N BDiag td [at_; di]) = Ok (Block fresh BDiag td [Wrap fresh WInverse at_; d]) /\
   st [ST; SI] (Block 5%N BDiag td [at_; di]) = Ok (Block fresh BDiag td [Wrap fresh WInverse a; d]) /\
   st [SI; SI] (Block 5%N BDiag td [at_; di]) = Ok (Block fresh BDiag td [at_; Wrap fresh WDiagInv d]) /\
-  st [SI; ST] (Block 5%N BDiag td [at_; di]) = Ok (Block fresh BDiag td [Wrap fresh WTranspose (Wrap fresh WInverse at_); d]) /\
+  st [SI; ST] (Block 5%N BDiag td [at_; di]) = Ok (Block fresh BDiag td [Wrap fresh WTranspose (Wrap fresh WInverse at_); d]).
+Proof. vm_compute. repeat split. Qed.
+Example c10_square_along_witness :
+  let s := Leaf (mkSds [2] 0) in
+  let a : op Z := Prim 1%N CAtom s s (PKey 2%N) in let at_ := Wrap 2%N WTranspose a in
+  let d : op Z := Prim 3%N CDiagonal s s (PKey 6%N) in let di := Wrap 4%N WDiagInv d in
   square_along 1%Z Z.mul Z.eqb (fun k => k) 12 default_order [SI; SI] [at_; di].
-Proof. vm_compute. repeat split. intros l' H; inversion H; subst; repeat split. intros l' H'; exact I. Qed.
+Proof.
+  cbv zeta. cbn [square_along]. split; [vm_compute; reflexivity|].
+  intros l' H. vm_compute in H. inversion H; subst l'. split; [vm_compute; reflexivity|]. intros; exact I.
+Qed.
 
 Example c10_acts_as_witness :
   let s := Leaf (mkSds [2] 0) in
